@@ -122,7 +122,10 @@ def main(argv=None):
                 pass
             n += 1
             rid = "p%04d" % n
-            full = [tool, "--seed", str(s)] + args
+            # the seed option in each of the spellings the argument parser accepts
+            sp = n % 5 if s >= 0 else 0
+            seedtok = (["--seed", str(s)], ["--seed=%d" % s], ["-S", str(s)], ["-S%d" % s], ["--see", str(s)])[sp]
+            full = [tool] + seedtok + args
             code = "import c07_child; c07_child.run_tool(%r, %r)" % (TOOLS[tool], full)
             meta[rid] = {"tool": tool, "argv": " ".join(full), "seed": s, "kind": "cli"}
             for k in range(nruns):
